@@ -24,7 +24,7 @@ OVERRIDE_CHECKS = {'C05/a': ['C05'], 'C07/b': ['C05', 'C07'], 'C10/b': ['C10', '
 def ids():
     out = []
     for i in range(1, 21):
-        for x in 'abcdefgh':
+        for x in 'abcdefghij':
             out.append('C%02d/%s' % (i, x))
     return out
 
@@ -38,7 +38,9 @@ def source_dir(pid, x):
     # round 3 deliveries (a/b under /tmp/seeded3) are kept as e/f, round 4 (/tmp/seeded4) as g/h
     if x in 'ef':
         return os.path.join('/tmp/seeded3', pid, {'e': 'a', 'f': 'b'}[x])
-    return os.path.join('/tmp/seeded4', pid, {'g': 'a', 'h': 'b'}[x])
+    if x in 'gh':
+        return os.path.join('/tmp/seeded4', pid, {'g': 'a', 'h': 'b'}[x])
+    return os.path.join('/tmp/seeded5', pid, {'i': 'a', 'j': 'b'}[x])
 
 
 def collect():
@@ -65,7 +67,7 @@ def collect():
             'id': key, 'breaks_property': pid,
             'change': needs.get(key, ['', ''])[0],
             'needs_to_manifest': needs.get(key, ['', ''])[1],
-            'author': 'independent sub-agent given only the property text and a scratch worktree (round %d)' % (1 if x in 'ab' else 2 if x in 'cd' else 3 if x in 'ef' else 4),
+            'author': 'independent sub-agent given only the property text and a scratch worktree (round %d)' % (1 if x in 'ab' else 2 if x in 'cd' else 3 if x in 'ef' else 4 if x in 'gh' else 5),
             'rebased_onto_repaired_tree': rebased,
         })
         json.dump(meta, open(meta_p, 'w'), indent=1)
